@@ -5,4 +5,4 @@ id=$1; shift
 wt=/tmp/rt_$$; git -C /repo worktree add -q --detach $wt HEAD || exit 3
 trap 'git -C /repo worktree remove --force $wt >/dev/null 2>&1' EXIT
 ( cd $wt && git apply /verif/refactors/$id/patch.diff && go build ./... ) || { echo "PATCH/BUILD FAILS"; exit 3; }
-for p in "$@"; do ( /verif/bin/dhtlint -repo $wt -property $p -no-evidence 2>&1 | grep -E "^(VIOLATION|BROKEN)|^C[0-9][0-9] " | sed -e "s#replay=[^ ]* ##" | cut -c1-${W:-300} ) & done; wait
+for p in "$@"; do ( ${DHTLINT:-/verif/bin/dhtlint} -repo $wt -property $p -no-evidence 2>&1 | grep -E "^(VIOLATION|BROKEN)|^C[0-9][0-9] " | sed -e "s#replay=[^ ]* ##" | cut -c1-${W:-300} ) & done; wait
